@@ -3,7 +3,7 @@ waypoints are visited in the order of the loop mode, invalid requests raise the 
 change nothing.
 
 A case is one history of public calls on a fresh, real `MissionMobilityPlugin`
-    ["start", [p…]] | ["stop"] | ["setWaypoint", i] | ["setReversed", b] | ["telemetry", p]
+    ["start", [p…]] | ["startFile", [p…], name, style] | ["stop"] | ["setWaypoint", i] | ["setReversed", b] | ["telemetry", p]
 (telemetry goes through the protocol's `handle_telemetry`, i.e. through the dispatcher chain the plugin
 hooked), observed after every call through `current_waypoint` / `is_reversed` / `is_idle` and the
 commands a recording `IProvider` received.  Positions are float bit patterns; generated coordinates are
@@ -14,12 +14,27 @@ A fleet case (`"members": [{loop, tol, speed}…]`, ops `[who, op]`) is the same
 the same process, each on its own protocol and provider, their calls interleaved (the nodes of one simulation).
 The property speaks about each plugin: every member must behave as its own calls alone dictate, and a call
 on one member changes nothing on, and issues no command for, another.
+
+`startFile` is `start_mission_with_waypoint_file(path)`: the harness writes the positions `[p…]` as "x,y,z" lines
+(the documented format; `style` picks one of several spellings of the same doubles) to the file `name` of a
+scratch directory right before the call - a planner that writes a waypoint file and tells the node to load it,
+again for every re-planning, possibly re-using the file name.  The mission the property speaks about is then
+the content of that file.  A case with such a call is ONE PROCESS: it runs in a pristine child (`_Fresh`), so
+its outcome is a function of the case alone (whatever the plugin module keeps at process level is as after
+import), and a replay of the case reproduces it.
 """
 import functools
 import gc
 import itertools
 import json
+import os
 import random
+import shutil
+import subprocess
+import sys
+import tempfile
+import threading
+from concurrent.futures import ThreadPoolExecutor
 from fractions import Fraction
 
 from common import bitsf, bitsv3, fbits, stable_hash, v3bits
@@ -105,12 +120,56 @@ def _gc_hygiene():
         gc.freeze()
 
 
-def _call(plugin, proto, op, mission_of=None):
+STARTS = ("start", "startFile")
+FILE_STYLES = ["plain", "plain", "short", "exp", "crlf", "nonl"]
+
+
+def _num(x, style):
+    """a decimal spelling of the double x that `float` reads back as exactly x"""
+    if style == "exp":
+        t = "%.17e" % x
+    elif style == "short" and x == int(x):
+        t = str(int(x))
+    else:
+        t = repr(x)
+    return t if fbits(float(t)) == fbits(x) else repr(x)
+
+
+def file_text(bits, style):
+    """the waypoint file of the documented format: one "x,y,z" line per position"""
+    eol = "\r\n" if style == "crlf" else "\n"
+    text = eol.join(",".join(_num(bitsf(b), style) for b in p) for p in bits)
+    return text if style == "nonl" else text + eol
+
+
+class _Files:
+    """the scratch directory of one case; a waypoint file is (re)written right before the call that loads it"""
+
+    def __init__(self):
+        self.dir = None
+
+    def put(self, op):
+        if self.dir is None:
+            shm = "/dev/shm"         # a memory file system when there is one: thousands of tiny files per run
+            self.dir = tempfile.mkdtemp(prefix="c16_wp_", dir=shm if os.access(shm, os.W_OK) else None)
+        path = os.path.join(self.dir, os.path.basename(str(op[2])) if len(op) > 2 else "mission.txt")
+        with open(path, "w", newline="") as f:
+            f.write(file_text(op[1], op[3] if len(op) > 3 else "plain"))
+        return path
+
+    def close(self):
+        if self.dir is not None:
+            shutil.rmtree(self.dir, ignore_errors=True)
+
+
+def _call(plugin, proto, op, mission_of=None, files=None):
     """one public call; how it ended"""
     try:
         name = op[0]
         if name == "start":
             plugin.start_mission(mission_of(op[1]) if mission_of else [bitsv3(p) for p in op[1]])
+        elif name == "startFile":
+            plugin.start_mission_with_waypoint_file(files.put(op))
         elif name == "stop":
             plugin.stop_mission()
         elif name == "setWaypoint":
@@ -125,7 +184,20 @@ def _call(plugin, proto, op, mission_of=None):
         return "refused"
     except Exception as e:          # no counterpart in the property: recorded, judged by the oracle
         return "crash:" + type(e).__name__
+    except SystemExit:              # the file loader calls exit(1) on a file it cannot read
+        return "crash:SystemExit"
     return "ok"
+
+
+_OBS = {}
+
+
+def _shared(r):
+    """enumerated histories repeat the same few hundred observations millions of times and the framework keeps
+    every row of a run in memory: one (never modified) dict per distinct observation instead of one per call"""
+    k = (r["out"], r["wp"], r["reversed"], r["idle"],
+         tuple(tuple(tuple(x) if isinstance(x, list) else x for x in c) for c in r["cmds"]))
+    return _OBS.setdefault(k, r)
 
 
 def _status(plugin):
@@ -134,22 +206,123 @@ def _status(plugin):
             "reversed": plugin.is_reversed, "idle": plugin.is_idle}
 
 
+def loads_files(case):
+    return any(op[0] == "startFile" for op in plain_ops(case))
+
+
+class _Fresh:
+    """One case = one process.  A server (`props_mission.py --serve`, a new interpreter that only imported the
+    plugin) forks a child per case; the child runs the history and dies.  Nothing a case leaves behind at
+    process level (module globals, class attributes, default arguments, caches) reaches another case, and
+    nothing of the thousands of earlier cases reaches it: what is observed is what a user's script consisting
+    of exactly these calls observes.
+    The generator announces its cases (`ahead`), a few servers then work through them side by side while the
+    framework is still busy with the other histories; `run` hands out the finished observation, or runs the
+    case on the spot when it was not announced (corpus, replay, shrinking)."""
+    local = threading.local()
+    pool = None
+    pending = {}
+
+    @classmethod
+    def _ask(cls, line):
+        proc = getattr(cls.local, "proc", None)
+        if proc is None or proc.poll() is not None:
+            proc = cls.local.proc = subprocess.Popen([sys.executable, os.path.abspath(__file__), "--serve"],
+                                                     stdin=subprocess.PIPE, stdout=subprocess.PIPE, text=True, bufsize=1)
+        proc.stdin.write(line)
+        proc.stdin.flush()
+        return proc.stdout.readline()
+
+    @staticmethod
+    def _line(case):
+        slim = {k: v for k, v in case.items() if k in ("kind", "loop", "tol", "speed", "members", "share", "ops")}
+        return json.dumps(slim, separators=(",", ":")) + "\n"
+
+    @classmethod
+    def ahead(cls, case):
+        if cls.pool is None:
+            cls.pool = ThreadPoolExecutor(max_workers=4)
+        cls.pending[id(case)] = (case, cls.pool.submit(cls._ask, cls._line(case)))
+        return case
+
+    @classmethod
+    def run(cls, case):
+        known = cls.pending.pop(id(case), None)
+        line = known[1].result() if known is not None and known[0] is case else cls._ask(cls._line(case))
+        if not line:
+            raise RuntimeError("C16: the fresh-process server died")
+        out = json.loads(line)
+        if "error" in out:
+            raise RuntimeError("C16: running the case in a fresh process failed: " + out["error"])
+        for r in out["results"]:        # share the few distinct strings, as the in-process observations do
+            r["out"] = sys.intern(r["out"])
+            for c in r["cmds"]:
+                c[0] = sys.intern(c[0])
+                if c[0] == "goto":
+                    c[1] = [sys.intern(x) for x in c[1]]
+                elif c[0] == "setSpeed":
+                    c[1] = sys.intern(c[1])
+        if case.get("label") == "enum" and "members" not in case:
+            out["results"] = [_shared(r) for r in out["results"]]
+        return out
+
+
+_IN_CHILD = False
+
+
+def _serve():
+    """the server side of `_Fresh`: one JSON case per line in, one JSON observation per line out"""
+    global _IN_CHILD
+    _IN_CHILD = True
+    out = os.fdopen(os.dup(1), "w")
+    devnull = os.open(os.devnull, os.O_WRONLY)
+    os.dup2(devnull, 1)              # whatever the implementation prints must not end up in the protocol
+    for line in sys.stdin:
+        if not line.strip():
+            continue
+        r, w = os.pipe()
+        pid = os.fork()
+        if pid == 0:
+            try:
+                os.close(r)
+                try:
+                    data = json.dumps(run_impl(json.loads(line)))
+                except BaseException as e:       # noqa: the child must always answer
+                    data = json.dumps({"error": f"{type(e).__name__}: {e}"})
+                with os.fdopen(w, "w") as f:
+                    f.write(data)
+            finally:
+                os._exit(0)
+        os.close(w)
+        with os.fdopen(r) as f:
+            data = f.read()
+        os.waitpid(pid, 0)
+        out.write((data or json.dumps({"error": "the child process died without an answer"})) + "\n")
+        out.flush()
+
+
 def run_impl(case):
+    if not _IN_CHILD and loads_files(case):
+        return _Fresh.run(case)
     if "members" in case:
         return run_impl_fleet(case)
     _gc_hygiene()
+    files = _Files()
     prov = _RecProvider()
     proto = _RecProtocol.instantiate(prov)
     cfg = MissionMobilityConfiguration(speed=bitsf(case["speed"]), loop_mission=LoopMission[case["loop"]],
                                        tolerance=bitsf(case["tol"]))
     plugin = MissionMobilityPlugin(proto, cfg)
     results = []
+    enum = case.get("label") == "enum" and not _IN_CHILD
     try:
         for op in case["ops"]:
             n0 = len(prov.cmds)
-            out = _call(plugin, proto, op)
-            results.append({"out": out, **_status(plugin), "cmds": prov.cmds[n0:]})
+            out = _call(plugin, proto, op, files=files)
+            r = {"out": out, **_status(plugin), "cmds": prov.cmds[n0:]}
+            results.append(_shared(r) if enum else r)
     finally:
+        files.close()
         # harness hygiene only: the dispatcher keeps every wrapped protocol alive in a module-level dict
         getattr(_dispatcher, "_protocol_wrappers", {}).pop(proto, None)
     return {"results": results, "passed_on": getattr(proto, "seen", 0)}
@@ -174,6 +347,7 @@ def run_impl_fleet(case):
         return lists[k]
 
     provs, protos, plugins = [], [], []
+    files = _Files()
     try:
         for m in case["members"]:
             prov = _RecProvider()
@@ -194,7 +368,7 @@ def run_impl_fleet(case):
         results = []
         for who, op in case["ops"]:
             n0 = [len(p.cmds) for p in provs]
-            out = _call(plugins[who], protos[who], op, mission_of)
+            out = _call(plugins[who], protos[who], op, mission_of, files)
             r = {"out": out, **_status(plugins[who]), "cmds": provs[who].cmds[n0[who]:]}
             others = []
             for j, p in enumerate(plugins):
@@ -206,6 +380,7 @@ def run_impl_fleet(case):
                 r["others"] = others
             results.append(r)
     finally:
+        files.close()
         for proto in protos:
             getattr(_dispatcher, "_protocol_wrappers", {}).pop(proto, None)
     return {"results": results, "passed_on": [getattr(p, "seen", 0) for p in protos]}
@@ -260,7 +435,7 @@ class Spec:
     def apply(self, op):
         """returns what the call must do: 'ok' | 'refused', and whether a waypoint step happened"""
         name = op[0]
-        if name == "start":
+        if name in STARTS:              # startFile: the mission is what the file says
             self.m, self.wp, self.rev = list(op[1]), 0, False
             return "ok", False
         if name == "stop":
@@ -291,7 +466,7 @@ def plain_ops(case):
 
 
 def in_domain(case):
-    return all(op[0] != "start" or len(op[1]) > 0 for op in plain_ops(case))
+    return all(op[0] not in STARTS or len(op[1]) > 0 for op in plain_ops(case))
 
 
 def member_view(case, impl, i):
@@ -373,7 +548,7 @@ def oracle(case, impl, idx=None, tag=""):
                 fails.append(("C16:valid-refused", f"{where} is valid here but raised MissionMobilityPluginException"))
             exp_cmds = None
             name = op[0]
-            if name == "start":
+            if name in STARTS:
                 exp = (0, False)
                 exp_cmds = [["goto", op[1][0]], ["setSpeed", speed]]
             elif name == "stop":
@@ -390,7 +565,8 @@ def oracle(case, impl, idx=None, tag=""):
                 exp_cmds = []
             got = (wp, rev) if wp is not None else None
             if got != exp:
-                sig = {"start": "C16:start", "stop": "C16:stop", "setWaypoint": "C16:set-waypoint"}.get(name)
+                sig = {"start": "C16:start", "startFile": "C16:start", "stop": "C16:stop",
+                       "setWaypoint": "C16:set-waypoint"}.get(name)
                 if sig is None:
                     sig = "C16:visit-order" if stepped else "C16:unreached-changed"
                 fails.append((sig, f"{where} in mode {case['loop']} from (waypoint {wp0}, reversed {rev0}) of "
@@ -429,6 +605,9 @@ def cmds_text(cs):
 def op_text(op):
     if op[0] == "start":
         return "start_mission([" + ", ".join(pos_text(p) for p in op[1]) + "])"
+    if op[0] == "startFile":
+        return (f"start_mission_with_waypoint_file({op[2] if len(op) > 2 else 'mission.txt'!r} containing ["
+                + ", ".join(pos_text(p) for p in op[1]) + "])")
     if op[0] == "telemetry":
         return "telemetry" + pos_text(op[1])
     if op[0] == "setWaypoint":
@@ -445,7 +624,7 @@ def fleet_events(case, impl):
     mission, wp = [None] * k, [None] * k
     ev = {"concurrent": 0, "concurrent_members": set(), "both_active_calls": 0, "same_mission_active": 0}
     for (who, op), r in zip(case["ops"], impl["results"]):
-        if op[0] == "start":
+        if op[0] in STARTS:
             mission[who] = op[1]
         wp[who] = r["wp"]
         active = [j for j in range(k) if mission[j] and isinstance(wp[j], int)]
@@ -454,7 +633,7 @@ def fleet_events(case, impl):
             if any(j != who and mission[j] == mission[who] for j in active):
                 ev["same_mission_active"] += 1
             i = wp[who]
-            if op[0] != "start" and i >= 1 and any(c[0] == "goto" for c in r["cmds"]) and i < len(mission[who]) and any(
+            if op[0] not in STARTS and i >= 1 and any(c[0] == "goto" for c in r["cmds"]) and i < len(mission[who]) and any(
                     j != who and i < len(mission[j]) and mission[j][i] != mission[who][i] for j in active):
                 ev["concurrent"] += 1
                 ev["concurrent_members"].add(who)
@@ -477,12 +656,12 @@ def events(case, impl):
     n = 0
     finished = False
     for op, r in zip(case["ops"], impl["results"]):
-        if op[0] == "start":
+        if op[0] in STARTS:
             n = len(op[1])
             finished = False
         if r["out"] == "refused":
             ev["refused"] += 1
-        if finished and op[0] != "start":
+        if finished and op[0] not in STARTS:
             ev["late"] += 1
         if op[0] == "telemetry" and prev[0] is not None:
             if r["cmds"] or r["wp"] is None:
@@ -651,6 +830,66 @@ def gen_fleet(seed, max_ops=60):
     return {"kind": "missionFleet", "members": members, "share": r.random() < 0.5, "ops": ops}
 
 
+def with_files(case, r, mode):
+    """the same history with its `start_mission(list)` calls made through `start_mission_with_waypoint_file`
+    (mode 'all': every one, 'mixed': every other one on average): each node mostly keeps one file name that it
+    rewrites for every re-planning, sometimes uses a new name per plan, sometimes the name another node uses too"""
+    fleet = "members" in case
+    ops, k = [], 0
+    for o in case["ops"]:
+        who, op = (o[0], o[1]) if fleet else (0, o)
+        if op[0] == "start" and op[1] and (mode == "all" or r.random() < 0.5):
+            k += 1
+            name = r.choice([f"wp_{who}.txt", f"wp_{who}.txt", f"plan_{k}.txt", "mission.txt"])
+            op = ["startFile", op[1], name, r.choice(FILE_STYLES)]
+        ops.append([who, op] if fleet else op)
+    return dict(case, ops=ops)
+
+
+def gen_replan(seed, max_ops=60):
+    """one node that re-plans: 2-4 missions in succession, each loaded from a waypoint file (now and then one is
+    handed over as a list), of lengths 1-5 that usually differ from plan to plan; each plan is flown exactly
+    (one telemetry on every waypoint in turn) or walked like the generated histories (telemetry on / at the
+    edge of / off the target, manual waypoint and direction requests - among them indices just past the end of
+    the CURRENT plan, which an earlier, longer plan had -, stop), to the end or until the next plan arrives"""
+    r = random.Random(stable_hash("mission-replan", seed))
+    loop = r.choice(MODES)
+    tol = r.choice(TOLS)
+    spec = Spec(loop, fbits(tol))
+    ops = []
+
+    def push(op):
+        ops.append(op)
+        spec.apply(op)
+
+    own = r.choice(["mission.txt", "waypoints.csv", "plan.txt"])
+    phases = r.randint(2, 4)
+    for ph in range(phases):
+        n = r.choice([1, 2, 2, 3, 3, 4, 5])
+        m = make_mission(r, n, tol)
+        if r.random() < 0.85:
+            push(["startFile", m, own if r.random() < 0.6 else f"plan_{ph}.txt", r.choice(FILE_STYLES)])
+        else:
+            push(["start", m])
+        if r.random() < 0.4:
+            laps = 1 if loop == "NO" else r.choice([1, 1, 2])
+            for _ in range(r.randint(max(1, n - 1), n * laps + (0 if loop == "NO" else 2))):
+                if spec.m is None:
+                    break
+                push(["telemetry", list(spec.target())])
+            if r.random() < 0.5:
+                push(["setWaypoint", r.choice([n, n - 1, n + 1, 0])])
+        else:
+            style = r.choice(["walk", "walk", "mixed"])
+            for _ in range(r.randint(n, 3 * n + 4)):
+                push(next_op(r, spec, style, n, tol))
+        if spec.m is not None and r.random() < 0.35:
+            push(["stop"])
+        if len(ops) >= max_ops:
+            break
+    return {"kind": "mission", "loop": loop, "tol": fbits(tol), "speed": fbits(r.choice(SPEEDS)), "ops": ops}
+
+
 def enum_mission(n):
     return [P(16 * k, 0, 2) for k in range(n)]
 
@@ -685,6 +924,52 @@ def enumerate_histories(n, loop, depth, first=None):
             ops.append(op)
             spec.apply(op)
         yield {"kind": "mission", "loop": loop, "tol": tol, "speed": fbits(5.0), "ops": ops, "label": "enum"}
+
+
+def enumerate_file_histories(loop, depth, first=None):
+    """every history of exactly `depth` calls over: load file a (3 waypoints), load file b (2 other waypoints),
+    stop, set_current_waypoint(2) (valid for a, past the end of b), telemetry on the expected target"""
+    tol = fbits(1.0)
+    plans = {"a": enum_mission(3), "b": [P(16 * k, 48, 2) for k in range(2)]}
+    alpha = [("file", "a"), ("file", "b"), ("stop",), ("setWaypoint", 2), ("tele",)]
+    rest = depth - (1 if first is not None else 0)
+    for combo in itertools.product(alpha, repeat=rest):
+        spec = Spec(loop, tol)
+        ops = []
+        for c in (([first] if first is not None else []) + list(combo)):
+            if c[0] == "file":
+                op = ["startFile", plans[c[1]], c[1] + ".txt", "plain"]
+            elif c[0] == "tele":
+                op = ["telemetry", spec.target() if spec.m is not None else plans["a"][0]]
+            else:
+                op = list(c)
+            ops.append(op)
+            spec.apply(op)
+        yield {"kind": "mission", "loop": loop, "tol": tol, "speed": fbits(5.0), "ops": ops, "label": "enum"}
+
+
+def enumerate_file_fleets(loop, depth, letters):
+    """two plugins in mode `loop` that each loaded their own file (3 and 2 waypoints, all different), then every
+    interleaving of exactly `depth` further calls, per member over `letters` (own file again, set_current_waypoint(2),
+    telemetry on the member's own expected target, stop)"""
+    tol = fbits(1.0)
+    plans = [enum_mission(3), [P(16 * k, 48, 2) for k in range(2)]]
+    members = [{"loop": loop, "tol": tol, "speed": fbits(5.0)} for _ in plans]
+    alpha = [(i,) + a for i in (0, 1) for a in letters]
+    for combo in itertools.product(alpha, repeat=depth):
+        specs = [Spec(loop, tol) for _ in plans]
+        ops = []
+        for c in ((0, "file"), (1, "file")) + combo:
+            i, spec = c[0], specs[c[0]]
+            if c[1] == "file":
+                op = ["startFile", plans[i], f"node{i}.txt", "plain"]
+            elif c[1] == "tele":
+                op = ["telemetry", spec.target() if spec.m is not None else plans[i][0]]
+            else:
+                op = list(c[1:])
+            ops.append([i, op])
+            spec.apply(op)
+        yield {"kind": "missionFleet", "members": members, "share": False, "ops": ops, "label": "enum"}
 
 
 def enum_fleet_alphabet(n):
@@ -728,7 +1013,9 @@ class C16(Check):
                   "issues the goto. For several plugins alive at once (a list of configuration/state pairs, calls interleaved): a call "
                   "leaves every other member untouched, every member is in the state its own calls alone lead to, hence the invariant "
                   "for each member after every interleaved history. The model is tied to the real plugin(s) by running both on "
-                  "generated and enumerated histories.")
+                  "generated and enumerated histories. start_mission_with_waypoint_file is start_mission of the positions its "
+                  "parsing loop collects from the lines of the file, a new list per call (C16_file_mission_is_the_file, C16_file_start): "
+                  "every clause holds for histories with file-based starts, the mission being the content of the file.")
     rule = ("histories of 1-40 public calls on the real plugin (mission lengths 1-5 x NO/RESTART/REVERSE; telemetry on target, "
             "exactly on / just inside / just outside the tolerance sphere on a dyadic lattice, on other waypoints, far away; "
             "out-of-bounds set_current_waypoint, set_reversed in every mode, calls before start and after the mission ended); "
@@ -743,6 +1030,16 @@ class C16(Check):
             "commands and required not to move on calls made on another member; plus every interleaving of 3 (thorough 4) calls over "
             "a 6-letter alphabet per member on two started plugins (lengths 2, 3; both in the same mode; thorough also every mixed "
             "pair of modes). "
+            "Waypoint files: 200 generated histories and 250 fleets (thorough 2000 each) with all / half of their starts made through "
+            "start_mission_with_waypoint_file (the positions written as 'x,y,z' lines in several spellings of the same doubles, LF / CRLF, "
+            "with / without final newline, to a file the node re-uses for every plan, a new file per plan, or a name another node uses "
+            "too), 250 (2000) re-planning nodes flying 2-4 plans of lengths 1-5 one after the other from files (exactly or walked, with "
+            "requests for indices just past the end of the current plan), every history of start-from-file-a + 3 calls (thorough: every "
+            "history of 4 calls, and file-a + 5 calls) over {load file a (3 waypoints), load file b (2), stop, set_current_waypoint(2), "
+            "telemetry on target} per mode, and two nodes that loaded their own files followed by every interleaving of 2 (thorough 3) "
+            "calls over {own file again, set_current_waypoint(2), telemetry on target, stop} per member; the mission the oracle reads "
+            "is the content of the file at the time of the call. Every history with a file-based start runs in a process of its own "
+            "(forked from an interpreter that only imported the plugin), so its verdict depends on nothing but its calls. "
             "non-trivial = the history contains a refused request AND (REVERSE: bounces at the last and at the first waypoint; "
             "RESTART: wraps from the last waypoint to the first; NO: runs to completion and is called again afterwards); "
             "fleet: at least two members step to / are set to a waypoint index >= 1 while another member has a mission in progress "
@@ -750,14 +1047,19 @@ class C16(Check):
     assumptions = ["missions are non-empty (start_mission([]) raises IndexError after changing the fields; domain note)",
                    "the caller does not mutate the mission list it handed to start_mission, and no other component sends mobility commands",
                    "set_current_waypoint gets an int and set_reversed a bool",
+                   "waypoint files exist, are well-formed ('x,y,z' per line, no blank lines) and non-empty; the file is not changed while it is being read",
                    "fleets: one plugin per protocol instance (two mission plugins on one protocol would send each other's node around, see the plugin's docstring)",
                    "boundary decisions are generated on a dyadic lattice where float arithmetic is exact; off-lattice positions stay clear of the tolerance sphere"]
-    modelled = ["gradysim/protocol/plugin/mission_mobility.py (all of MissionMobilityPlugin except start_mission_with_waypoint_file)"]
+    modelled = ["gradysim/protocol/plugin/mission_mobility.py (all of MissionMobilityPlugin; of start_mission_with_waypoint_file the "
+                "list-building loop and the hand-over to start_mission - reading the text of a line into three doubles is Python's float(), "
+                "not modelled; unreadable / malformed files (exit(1)) are outside the property)"]
 
     quick_n = 2500
     thorough_n = 30000
     quick_fleets = 700
     thorough_fleets = 8000
+    quick_files = (200, 250, 250)          # histories / fleets re-run with file-based starts, re-planning nodes
+    thorough_files = (2000, 2000, 2000)
 
     def generate(self, seed, tier):
         n = self.quick_n if tier == "quick" else self.thorough_n
@@ -770,6 +1072,35 @@ class C16(Check):
             h = gen_fleet(stable_hash("C16", "fleet", seed, i))
             h["label"] = f"fleet/{seed}/{i}"
             yield h
+        # missions loaded from waypoint files (each such case runs in a process of its own): the generated
+        # shapes above with (some of) their starts made through files, several nodes each loading its own
+        # file, and nodes that re-plan from one file after another
+        nh, nf, nr = self.quick_files if tier == "quick" else self.thorough_files
+
+        def ahead(h):
+            return _Fresh.ahead(h) if loads_files(h) else h
+        for i in range(nh):
+            r = random.Random(stable_hash("C16", "files", seed, i))
+            h = with_files(gen_history(stable_hash("C16", "files-h", seed, i)), r, r.choice(["all", "mixed"]))
+            h["label"] = f"files/{seed}/{i}"
+            yield ahead(h)
+        for i in range(nf):
+            r = random.Random(stable_hash("C16", "file-fleet", seed, i))
+            h = with_files(gen_fleet(stable_hash("C16", "file-fleet-h", seed, i)), r, r.choice(["all", "all", "mixed"]))
+            h["label"] = f"file-fleet/{seed}/{i}"
+            yield ahead(h)
+        for i in range(nr):
+            h = gen_replan(stable_hash("C16", "replan", seed, i))
+            h["label"] = f"replan/{seed}/{i}"
+            yield ahead(h)
+        for loop in MODES:
+            if tier == "quick":
+                yield from map(ahead, enumerate_file_histories(loop, 4, first=("file", "a")))
+                yield from map(ahead, enumerate_file_fleets(loop, 2, [("file",), ("setWaypoint", 2), ("tele",), ("stop",)]))
+            else:
+                yield from map(ahead, enumerate_file_histories(loop, 4))
+                yield from map(ahead, enumerate_file_histories(loop, 6, first=("file", "a")))
+                yield from map(ahead, enumerate_file_fleets(loop, 3, [("file",), ("setWaypoint", 2), ("tele",), ("stop",)]))
         # small scope: every history over the 9-10 letter alphabet of enum_alphabet, per length and mode.
         # quick: all histories of <= 3 calls, and (lengths 1, 2) start_mission followed by every 3 further calls;
         # thorough: all histories of <= 4 calls, and start_mission followed by every 5 further calls
@@ -796,6 +1127,11 @@ class C16(Check):
             yield gen_history(stable_hash("C16", "widen", seed, i))
             if i % 4 == 0:
                 yield gen_fleet(stable_hash("C16", "widen-fleet", seed, i))
+            if i % 8 == 1:
+                yield gen_replan(stable_hash("C16", "widen-replan", seed, i))
+            if i % 8 == 5:
+                yield with_files(gen_fleet(stable_hash("C16", "widen-file-fleet", seed, i)),
+                                 random.Random(stable_hash("C16", "widen-files", seed, i)), "all")
 
     def run_impl(self, case):
         return run_impl(case)
@@ -817,8 +1153,7 @@ class C16(Check):
         if len(a) != len(b):
             return [f"observation length differs: implementation {len(a)} vs model {len(b)}"]
         if a == b:
-            if case.get("label") == "enum":
-                model["results"] = len(b)      # agreed: keep the count only (the framework holds every row in memory)
+            model["results"] = len(b)          # agreed: keep the count only (the framework holds every row in memory)
             return []
         for k, (x, y) in enumerate(zip(a, b)):
             if x != y:
@@ -880,10 +1215,20 @@ class C16(Check):
         else:
             inc("mode_" + case["loop"])
         inc("calls", len(case["ops"]))
+        loads = [o for o in case["ops"] if (o[1] if "members" in case else o)[0] == "startFile"]
+        if loads:
+            inc("histories_in_a_process_of_their_own")
+            if len(loads) >= 2:
+                inc("histories_with_2+_file_loads")
+            if "members" in case and len({o[0] for o in loads}) >= 2:
+                inc("fleets_with_2+_members_loading_files")
+            names = [(o[1] if "members" in case else o)[2] for o in loads]
+            if len(set(names)) < len(names):
+                inc("histories_reloading_a_file_name")
         for op, r in zip(plain_ops(case), impl["results"]):
             inc("call_" + op[0])
             inc("result_" + r["out"])
-            if op[0] == "start":
+            if op[0] in STARTS:
                 inc(f"mission_len_{len(op[1])}")
         for k, v in events(case, impl).items():
             if v:
@@ -907,14 +1252,23 @@ class C16(Check):
             changed = False
             for i, o in enumerate(best["ops"]):
                 op = o[1] if fleet else o
-                if op[0] == "start" and len(op[1]) > 1:
-                    short = ["start", op[1][:-1]]
+                if op[0] in STARTS and len(op[1]) > 1:
+                    short = [op[0], op[1][:-1]] + op[2:]
                     cand = dict(best)
                     cand["ops"] = best["ops"][:i] + [[o[0], short] if fleet else short] + best["ops"][i + 1:]
                     if still_fails(cand):
                         best = cand
                         changed = True
                         break
+        # a file-based start that may as well be a start_mission(list): say so (the file is then not what it takes)
+        for i, o in enumerate(best["ops"]):
+            op = o[1] if fleet else o
+            if op[0] == "startFile":
+                plain = ["start", op[1]]
+                cand = dict(best)
+                cand["ops"] = best["ops"][:i] + [[o[0], plain] if fleet else plain] + best["ops"][i + 1:]
+                if still_fails(cand):
+                    best = cand
         best = dict(best)
         if fleet:
             # members that are never called: drop them while it still fails (renumbering the others)
@@ -934,3 +1288,6 @@ class C16(Check):
 
 
 CHECKS = {"C16": C16}
+
+if __name__ == "__main__" and "--serve" in sys.argv:
+    _serve()
